@@ -462,6 +462,12 @@ class SymRng:
         self.draws.append(("choice", n, k, cells))
         return symnp.SymArray(symnp._obj(cells), symnp._I8)
 
+    def permutation(self, x):
+        if isinstance(x, symnp.SymArray):
+            idx = self.choice(len(x), size=len(x), replace=False)
+            return x[idx]
+        return self.choice(int(x), size=int(x), replace=False)
+
     def multivariate_normal(self, mean, cov, size=None, **kw):
         n = int(size) if size is not None else 1
         d = len(mean)
